@@ -708,7 +708,7 @@ Definition kd_ocol (kind : Z) (n1 n2 : nat) (co1 co2 : list Z) (fsc ssc : list n
 
 (* when the judge additionally demands that the components of a TU matrix are TU *)
 Definition kd_tu_applies (kind p : Z) (both : bool) (m1 n1 m2 n2 : nat) (fsr fsc ssr ssc : list nat) : bool :=
-  (p =? 3) && ((kind =? 2) || (((kind =? 3) || (kind =? 4)) && both &&
+  (p =? 3) && ((kind =? 2) || (((kind =? 3) || (kind =? 4) || (kind =? 5)) && both &&
      Nat.leb 4 (length (keep_idx m1 (removed_rows kind true fsr)) + length (keep_idx n1 (removed_cols kind true fsc))) &&
      Nat.leb 4 (length (keep_idx m2 (removed_rows kind false ssr)) + length (keep_idx n2 (removed_cols kind false ssc))))).
 
